@@ -41,7 +41,11 @@ def only_ampycloud_errors(ctx, rule='C08-R1'):
                           f'except {e.note or "<bare>"}: an exception handler converts or swallows errors '
                           '(none exists on the pinned tree; each must be reviewed)',
                           instance=f'{q}: except {e.note}')
-    ctx.floor(rule, 'raise statements in the package', n, 40)
+    # a refusal centralised in a helper that always raises (`_refuse(msg)`) is one raise statement and many sites
+    from sa.definite import Raisers
+    sites = Raisers(p).call_sites()
+    ctx.floor(rule, 'refusal sites in the package (raise statements and calls of helpers that always raise)',
+              n + len(sites), 40)
     asserts = [(q, e) for q, e in fx.all_events() if e.kind == 'assert']
     ctx.tables['assert_statements (information only)'] = [f'{q} @ {e.loc()}: {e.text()[:80]}'
                                                           for q, e in asserts]
@@ -586,6 +590,8 @@ def locals_bound_before_use(ctx, rule='C08-R6', scope='processing'):
                     stars |= module_names(tm.tree)
             modnames[mod.name] = None if external else module_names(mod.tree, stars)
         return modnames[mod.name]
+    from sa.definite import Raisers
+    never_returns = Raisers(p).never_returns
     reads, nfun, info = 0, 0, []
     for q in sorted(funcs):
         f = p.funcs.get(q)
@@ -593,7 +599,7 @@ def locals_bound_before_use(ctx, rule='C08-R6', scope='processing'):
             continue
         nfun += 1
         ctx.saw(f)
-        d = analyse(f.node)
+        d = analyse(f.node, noreturn=lambda c, f=f: never_returns(f, c))
         reads += d.reads_checked
         for x in d.findings:
             loc = f'{f.module.relpath}:{x.node.lineno}'
